@@ -36,6 +36,7 @@ def run(ctx):
     ctx.guard(mirror, "SkipAheadIntersector")
     ctx.guard(counting)
     ctx.guard(swaps)
+    ctx.guard(merged_sorted)
 
 
 def _rename(s, curr=True):
@@ -224,3 +225,35 @@ def swaps(ctx):
         ctx.bad("C19.R2", m, rets[0] if rets else m.node, "the finite-latency "
                 "charge is no longer next_latency * (len(coords) + len(merged))",
                 text_="_merge finite latency")
+
+
+def merged_sorted(ctx):
+    """Compute._merge hands its merged list to the next merge round, which
+    pops from the end of sorted lists: on every path the returned list must
+    have been sorted after its last element was added."""
+    m = ctx.func(CP + "_merge")
+    from ..cfg import cfg_of
+    g = cfg_of(m, assert_edges=False)
+    for r in pat.returns(m):
+        if not (isinstance(r.value, ast.Tuple) and len(r.value.elts) == 2
+                and isinstance(r.value.elts[1], ast.Name)):
+            continue
+        mv = r.value.elts[1].id
+        sorts = {enclosing_stmt(c) for c in pat.calls(m, attr="sort")
+                 if text(c.func.value) == mv}
+        muts = [enclosing_stmt(c) for c in m.own_nodes() if isinstance(c, ast.Call)
+                and isinstance(c.func, ast.Attribute) and text(c.func.value) == mv
+                and c.func.attr in ("append", "extend", "insert")]
+        muts += [a for a in m.own_nodes() if isinstance(a, ast.Assign)
+                 and text(a.targets[0]) == mv]
+        leak = [st for st in muts if r in g.reachable(st, avoid=sorts) ]
+        if leak:
+            ctx.bad("C19.R2", m, r, "Compute._merge can return `%s` without "
+                    "sorting it after `%s`: the next merge round pops from "
+                    "lists it assumes sorted, so the comparison count of a "
+                    "multi-round merge is wrong" % (mv, text(leak[0])[:50]),
+                    text_="_merge result sorted")
+        else:
+            ctx.ok("C19.R2", m, r, "the merged list is sorted after its last "
+                   "modification on every path to this return",
+                   text_="_merge result sorted")
